@@ -1289,6 +1289,11 @@ def validation_case(ctx, spec, iface, cell):
         except Exception as e:
             fail = "accepted, but the draw raised %s: %s" % (type(e).__name__, str(e)[:120])
             sig = ("legacy.Conjugate|no-structural-validation" if iface == "legacy" else "exp.Conjugate|accepted-then-raises")
+    if spec.get("mono_k") is not None and accepted and fail is None and spec["mono_k"] != (-1 if spec["var"] == "cov" else 1):
+        # C10_monomial_exact_iff on the implementation: an accepted monomial with k != 1 cannot be sampled exactly
+        fail = ("the dependence c * s^%d was accepted and the oracle found the drawn Gamma proportional to the target, although C10_monomial_exact_iff(_cov,_gmrf) "
+                "says it cannot be" % spec["mono_k"])
+        sig = "C10|monomial-exactness-class"
     icoq = legacy_approx_variant() if iface == "legacy_approx" else IFACE_COQ[iface]
     expr = "check_validate %s %s (%s)" % (icoq, target_coq(spec, order), obs)
     return [Case(expr=expr, meta=meta, cell=cell, kind="DECISION", impl_fail=fail, signature=sig)]
@@ -1315,6 +1320,16 @@ def gen_validation_specs(ctx):
                 continue
             for iface in ["exp", "legacy"]:
                 out.append((gspec(fam, var, dep), iface, "validate/%s/%s/%s/%s" % (fam, var, lab, iface)))
+    # round 5: the monomial class c * s^k, every integer exponent -3..3 (C10_monomial_exact_iff: sampled exactly <-> k = 1, for every c > 0;
+    # C10_probe_identity_decides_monomials: the experimental sampler accepts <-> k = 1 and c within 1.00001e-5 of 1).  Through the
+    # legacy sampler (accepts everything) the oracle must flag exactly the k != 1 members
+    for k in (-3, -2, -1, 0, 1, 2, 3):
+        for c in (1 + Fraction(1, 2 ** 18), Fraction(3)):
+            for iface in ["exp", "legacy"]:
+                out.append((gspec("gaussian", "prec", scalar_dep(dmono_tree(c, k)), mono_k=k), iface, "validate/monomial/prec/k=%d/%s" % (k, iface)))
+        for iface in ["exp", "legacy"]:      # C10_monomial_exact_iff_cov (exact <-> k = -1) and _gmrf (exact <-> k = 1)
+            out.append((gspec("gaussian", "cov", scalar_dep(dmono_tree(Fraction(2), k)), mono_k=k), iface, "validate/monomial/cov/k=%d/%s" % (k, iface)))
+            out.append((gspec("gmrf", "prec", scalar_dep(dmono_tree(Fraction(1, 4), k)), mono_k=k), iface, "validate/monomial/gmrf-prec/k=%d/%s" % (k, iface)))
     for m in [2, 3]:
         for lab, var, dep in array_catalogue(m):
             for iface in ["exp", "legacy"]:
